@@ -131,6 +131,30 @@ func init() {
 	intrinsics["(encoding/binary.littleEndian).PutUint64"] = put(8)
 	intrinsicDoc["(encoding/binary.littleEndian).PutUint32"] = "writes the 4 little-endian bytes of v to b[0:4]; panics unless len(b) >= 4"
 
+	appendLE := func(width int) intrinsic {
+		return func(fr *Frame, st *State, args []*Val, pos token.Pos) []*Val {
+			x := fr.x
+			b := args[len(args)-2]
+			v := args[len(args)-1].T()
+			et := sliceElem(b.Ty)
+			r := x.allocBacking(st, et)
+			hn := "A_" + typeKey(et) + "_"
+			hs := arrSort(sArrI)
+			h := x.heap(st, hn, hs)
+			arr := tSel(h, r)
+			for i := 0; i < width; i++ {
+				arr = tSto(arr, num(int64(i)), "(mod (div "+v+" "+pow2(uint(8*i)).String()+") 256)")
+			}
+			st.heaps[hn] = x.vc.def(hn, hs, tSto(h, r, arr))
+			tmp := &Val{Ty: b.Ty, L: []string{r, "0", num(int64(width)), num(int64(width))}}
+			return []*Val{fr.doAppend(st, b, tmp, pos)}
+		}
+	}
+	intrinsics["(encoding/binary.littleEndian).AppendUint32"] = appendLE(4)
+	intrinsics["(encoding/binary.littleEndian).AppendUint16"] = appendLE(2)
+	intrinsics["(encoding/binary.littleEndian).AppendUint64"] = appendLE(8)
+	intrinsicDoc["(encoding/binary.littleEndian).AppendUint32"] = "append(b, the 4 little-endian bytes of v)"
+
 	intrinsics["bytes.Equal"] = func(fr *Frame, st *State, args []*Val, pos token.Pos) []*Val {
 		x := fr.x
 		return []*Val{mkBool(x.seqEq(x.seqOf(st, args[0]), x.seqOf(st, args[1]), nil, nil))}
